@@ -786,6 +786,9 @@ class PosInterp:
                                 fl_ |= getattr(_re, part.strip().rsplit('.', 1)[-1], 0)
                         return _re.compile(v_.args[0].value, fl_)
                     return self.expr(st.value, {})          # module constant (_LOAD_FACTOR and friends)
+            sym_ = getattr(self.mod, 'symbols', {}).get(e.id)
+            if type(sym_).__name__ == 'ClassInfo':
+                return ClassRef(e.id)                       # a class of the repository, named in an isinstance test or a constructor call
             raise self.err(e, 'name')
         if isinstance(e, ast.Attribute):
             if norm(e) in ('copy.copy', 'copy.deepcopy', 'itertools.accumulate', 'itertools.chain', 'itertools.count', 'itertools.groupby', 'functools.reduce',
